@@ -380,6 +380,32 @@ def run_one(seed, tape, opts):
                                                     w.both_connected()),
                 max_time=600)
     oracle()
+    # lost wake-up for pull producers: with a drained, writable connection a
+    # registered pull producer keeps being pulled (ours unregister themselves
+    # after a fixed number of turns, so none may remain)
+
+    def pending_pulls():
+        return [x for s in w.sides for x in producers[s.name]
+                if x.kind == "pull" and x.registered and not x.proto.lost and
+                not x.proto.closed_local]
+    if not viol and r == "until" and pending_pulls():
+        sim.note("probe.pull_producer_pending_at_settle")
+        r2 = sim.run(6000, until=lambda: bool(viol) or not pending_pulls(),
+                     max_time=600)
+        left = pending_pulls()
+        if left:
+            sim.note("probe.pull_pending_after_wait." + r2)
+        if not viol and left and w.both_connected() and \
+                all(writable(x.side) for x in left) and \
+                r2 in ("idle", "time"):
+            x = left[0]
+            V("C15.pull_lost_wakeup", "when the connection drains all paused "
+              "producers are eventually resumed, each getting a turn",
+              "%s: pull producer %d registered on a live subchannel, "
+              "connection writable, got %d of %d turns and was not pulled "
+              "again until the simulation went idle / 600 s passed; signals "
+              "%r" %
+              (x.side.name, id_of(x), x.turns, x.behaviour, x.signals[-4:]))
     if not viol and r == "until" and mode == "rotation":
         for s in w.sides:
             regd = [x for x in producers[s.name] if x.registered and
